@@ -59,14 +59,14 @@ Definition c01_dep (t : N) (c ty : res) (dyn : bool) : dep * bool :=
   ({| d_text := t; d_filelike := false; d_code := c; d_type := ty; d_dyn := dyn;
       d_deno_types := false; d_attr := 0 |}, false).
 Definition c01_mod (s : spec) (ds : list (dep * bool)) : spec * wresp :=
-  (s, WModule s {| wm_media := MTypeScript; wm_parse_ok := true; wm_kind := MkJs; wm_deps := ds; wm_tdep := None |}).
+  (s, WModule s {| wm_hash_raw := 0; wm_hash_text := 0; wm_media := MTypeScript; wm_parse_ok := true; wm_kind := MkJs; wm_deps := ds; wm_tdep := None |}).
 Definition c01_world : world :=
   {| w_resp := [c01_mod 1 [c01_dep 10 (ROk 2 0) RNone false; c01_dep 11 (ROk 3 0) RNone false;
                            c01_dep 12 (ROk 5 0) RNone true];
                 c01_mod 2 [c01_dep 13 (ROk 4 0) RNone false; c01_dep 14 RNone (ROk 6 0) false];
                 c01_mod 3 [c01_dep 15 (ROk 4 0) RNone false];
                 c01_mod 4 []; c01_mod 5 []; c01_mod 6 []; c01_mod 7 []];
-     w_class := []; w_file := []; w_max_redirects := 10 |}.
+     w_resp_reload := []; w_http := []; w_lock := None; w_class := []; w_file := []; w_max_redirects := 10 |}.
 Definition c01_opts (k : gkind) : bopts :=
   {| bo_kind := k; bo_is_dynamic := false; bo_skip_dynamic := false; bo_unstable_bytes := false;
      bo_unstable_text := false; bo_unstable_css := false |}.
